@@ -132,6 +132,27 @@ class Summary:
     def events_of(self, kind):
         return [e for e in self.events if e.kind == kind]
 
+    def mapped(self, fn):
+        """A copy of the summary with ``fn`` (term -> term) applied to every term: events, guards, loops, return value, final environment."""
+        def rv(v):
+            if isinstance(v, tuple):
+                return fn(v)
+            if isinstance(v, list):
+                return [rv(y) for y in v]
+            return v
+
+        def cx(c):
+            return Ctx(tuple((fn(g), pol) for g, pol in c.guards), c.loops, c.func, c.tries)
+        events = [Event(e.kind, cx(e.ctx), e.node, {k: rv(v) for k, v in e.data.items()}, e.seq) for e in self.events]
+        loops = LoopTable()
+        for lid in dict.keys(self.loops):
+            lp = dict.__getitem__(self.loops, lid)
+            dict.__setitem__(loops, lid, LoopInfo(lp.lid, lp.kind, fn(lp.iterable) if isinstance(lp.iterable, tuple) else lp.iterable, fn(lp.elem) if lp.elem is not None else None, lp.target,
+                                                   {k: rv(v) for k, v in lp.init.items()}, {k: rv(v) for k, v in lp.update.items()}, cx(lp.ctx), lp.node, lp.tree, lp.target_names,
+                                                   tuple((fn(c), tuple((n, fn(v)) for n, v in vals)) for c, vals in lp.breaks)))
+        env = {(fn(k) if isinstance(k, tuple) else k): rv(v) for k, v in self.env.items()}
+        return Summary(self.func, self.params, self.tree, fn(self.ret), events, loops, env, self.unbound, self.is_generator)
+
     def calls(self, dotted=None, top_only=False):
         out = []
         for e in self.events:
